@@ -189,7 +189,7 @@ def gen_cases(tier, seed, gen, effort):
     cases = []
     for _ in range((2500 if not thorough else 40000) * effort):
         pre = {"state": rnd.random() < 0.7, "state_cond": rnd.choice([None, {"type": "logsource", "category": "cat"}, {"type": "logsource", "category": "zzz"}]),
-               "map": rnd.random() < 0.7, "logsrc": rnd.random() < 0.4, "n5": rnd.random() < 0.3}
+               "map": rnd.random() < 0.7, "logsrc": rnd.random() < 0.4, "n5": rnd.random() < 0.3, "nest": rnd.random() < 0.25}
         c = {"pre": pre, "rule": gen_group(rnd, RULE_CONDS), "det": gen_group(rnd, DET_CONDS), "field": gen_group(rnd, FIELD_CONDS)}
         r = rnd.random()
         if r < 0.25:
@@ -235,6 +235,12 @@ def pipeline_dict(case):
         ts.append(t)
     if pre["n5"]:
         ts.append({"id": "n5", "type": "set_state", "key": "n", "val": 5})
+    if pre.get("nest"):
+        # a nested pipeline that sets state: what it sets (and overrides) is visible to the items after it, like a flat item sequence
+        ts.append({"id": "nst", "type": "nest", "items": [
+            # conditioned on state set OUTSIDE the nest: a nested pipeline starts with the state of the enclosing one
+            {"id": "nst_m", "type": "set_state", "key": "m", "val": "x", "rule_conditions": [{"type": "processing_state", "key": "k", "val": "v"}]},
+            {"id": "nst_k", "type": "set_state", "key": "k", "val": "w"}]})
     if pre["map"]:
         ts.append({"id": "map", "type": "field_name_mapping", "mapping": {"fieldB": "mappedB"}})
     if pre["logsrc"]:
@@ -266,7 +272,7 @@ def run_impl(case):
             from sigma.correlations import SigmaCorrelationRule
             rule = SigmaCorrelationRule.from_dict(copy.deepcopy(doc_of(case)))
             pl.apply(rule)
-            return {"outcome": "ok", "fields": [], "sel": [], "flt": [], "applied": sorted(pl.applied_ids), "prior_error": prior_error, "group_by": list(rule.group_by or [])}
+            return {"outcome": "ok", "fields": [], "sel": [], "flt": [], "applied": sorted(x for x in pl.applied_ids if x != "nst"), "prior_error": prior_error, "group_by": list(rule.group_by or [])}
         rule = SigmaRule.from_dict(copy.deepcopy(doc_of(case)))
         pl.apply(rule)
         out = []
@@ -280,7 +286,7 @@ def run_impl(case):
         walk(rule.detection.detections["sel"])
         nsel = len(out)
         walk(rule.detection.detections["flt"])
-        return {"outcome": "ok", "fields": out, "sel": out[:nsel], "flt": out[nsel:], "applied": sorted(pl.applied_ids), "prior_error": prior_error}
+        return {"outcome": "ok", "fields": out, "sel": out[:nsel], "flt": out[nsel:], "applied": sorted(x for x in pl.applied_ids if x != "nst"), "prior_error": prior_error}
     except Exception as e:
         return {"outcome": outcome_of_exception(e), "stage": "apply", "msg": str(e)[:160], "prior_error": prior_error}
 
@@ -394,7 +400,10 @@ NOGROUP = {"conds": [], "neg": False, "link": None}
 def items_json(case, rule_group=None):
     """the pipeline description for the specification, item by item as in pipeline_dict"""
     out = []
+    flat = []
     for t in pipeline_dict(case)["transformations"][:-1]:
+        flat += t["items"] if t["type"] == "nest" else [t]      # a nested pipeline is the sequence of its items
+    for t in flat:
         g = {"conds": t.get("rule_conditions", []), "neg": False, "link": None}
         a = {"type": t["type"]}
         if t["type"] == "set_state":
@@ -479,6 +488,10 @@ def world(case):
             w["state"]["k"] = "v"; w["applied"].add("state")
     if pre["n5"]:
         w["state"]["n"] = 5; w["applied"].add("n5")
+    if pre.get("nest"):
+        if w["state"].get("k") == "v":
+            w["state"]["m"] = "x"
+        w["state"]["k"] = "w"
     if pre["map"]:
         w["applied"].add("map")
         for it in w["items"]:
